@@ -6,14 +6,14 @@ namespace Gsu.LangRegex
 
 def ret : K := fun j c => some (j, c)
 
-theorem searchFrom_leftmost (s : Bytes) (re : Re) (fuel i0 a b : Nat) (c : Caps)
-    (h : searchFrom s re fuel i0 = some (a, b, c)) :
-    i0 ≤ a ∧ m s re a [] ret = some (b, c) ∧ ∀ i, i0 ≤ i → i < a → m s re i [] ret = none := by
+theorem searchFrom_leftmost (ic : Bool) (s : Bytes) (re : Re) (fuel i0 a b : Nat) (c : Caps)
+    (h : searchFrom ic s re fuel i0 = some (a, b, c)) :
+    i0 ≤ a ∧ m ic s re a [] ret = some (b, c) ∧ ∀ i, i0 ≤ i → i < a → m ic s re i [] ret = none := by
   induction fuel generalizing i0 with
   | zero => simp [searchFrom] at h
   | succ n ih =>
     simp only [searchFrom] at h
-    cases hm : m s re i0 [] (fun j c => some (j, c)) with
+    cases hm : m ic s re i0 [] (fun j c => some (j, c)) with
     | some r =>
       obtain ⟨j, c'⟩ := r
       simp only [hm] at h
@@ -36,5 +36,35 @@ theorem orElse_some (a : Res) (b : Unit → Res) (r : Nat × Caps) (h : a = some
 
 theorem orElse_none (a : Res) (b : Unit → Res) (h : a = none) : orElse a b = b () := by
   subst h; rfl
+
+theorem lastFrom_last (ic : Bool) (s : Bytes) (re : Re) (i a b : Nat) (c : Caps)
+    (h : lastFrom ic s re i = some (a, b, c)) :
+    a ≤ i ∧ m ic s re a [] ret = some (b, c) ∧ ∀ j, a < j → j ≤ i → m ic s re j [] ret = none := by
+  induction i with
+  | zero =>
+    simp only [lastFrom] at h
+    cases hm : m ic s re 0 [] (fun j c => some (j, c)) with
+    | none => simp [hm] at h
+    | some r =>
+      obtain ⟨j, c'⟩ := r
+      simp only [hm] at h
+      cases h
+      exact ⟨Nat.le_refl _, hm, fun j h1 h2 => by omega⟩
+  | succ n ih =>
+    simp only [lastFrom] at h
+    cases hm : m ic s re (n + 1) [] (fun j c => some (j, c)) with
+    | some r =>
+      obtain ⟨j, c'⟩ := r
+      simp only [hm] at h
+      cases h
+      exact ⟨Nat.le_refl _, hm, fun j h1 h2 => by omega⟩
+    | none =>
+      simp only [hm] at h
+      obtain ⟨h1, h2, h3⟩ := ih h
+      refine ⟨by omega, h2, ?_⟩
+      intro j hj1 hj2
+      by_cases he : j = n + 1
+      · subst he; exact hm
+      · exact h3 j hj1 (by omega)
 
 end Gsu.LangRegex
